@@ -1,10 +1,134 @@
 """C10 -- cyclic symmetry expansion (Motl.split_in_asymmetric_subunits)."""
 import z3
+from vfw import sym, theory
+from vfw.sym import SV, ctx, to_z3
 from vfw.engine import Contract
+from vfw.models import frames
 from . import common
+from .common import MOTL_COLS, zr
 
-CONTRACTS = []
-LEVEL = "exploration"
+XYZ = ("x", "y", "z")
+HALF = z3.RealVal("1/2")
+CHANGED = {"x", "y", "z", "shift_x", "shift_y", "shift_z", "phi", "theta", "psi", "geom2", "geom5", "subtomo_id"}
+
+
+class SymDigits:
+    """the digit string matched by re.findall(r"\\d+", symmetry)[-1]; int() of it is the fold number"""
+
+    def __init__(self, n):
+        self.n = n
+
+    def __sym_int__(self):
+        return self.n
+
+
+class SymSymmetry:
+    """a symmetry string 'C<n>' / 'c<n>' with symbolic n >= 1"""
+
+    def __init__(self, n, letter):
+        self.n, self.letter = n, letter
+
+    def __sym_isinstance__(self, ts):
+        return str in ts
+
+    def lower(self):
+        return SymSymmetry(self.n, self.letter.lower())
+
+    def startswith(self, p):
+        return self.letter.startswith(p) if len(p) == 1 else False
+
+
+class ReStub:
+    @staticmethod
+    def findall(pattern, s):
+        if pattern == "\\d+" and isinstance(s, SymSymmetry):
+            return [SymDigits(s.n)]
+        raise sym.Unsupported("re.findall form")
+
+
+class SplitSubunits(Contract):
+    """Motl.split_in_asymmetric_subunits for a symbolic fold number n >= 1: generic parent row x generic subunit index"""
+    prop = "C10"
+    module = "cryomotl"
+    qual = "Motl.split_in_asymmetric_subunits"
+    configs = [{"form": "number"}, {"form": "C"}, {"form": "c"}]
+
+    def cfg_name(self, cfg):
+        return {"number": "n given as a number", "C": "'C<n>'", "c": "'c<n>'"}[cfg["form"]]
+
+    def bind(self, cx, cfg):
+        it = common.motl_interp(extra={"re": ReStub})
+        df = common.fresh_motl_frame()
+        df.unique_cols = ("subtomo_id",)  # requires: subtomogram numbers identify the particles of the input list
+        me = common.motl_obj(it, df)
+        n = SV(z3.Int("nfold"))
+        cx.assume(n.t >= 1)
+        sub = frames.Space(n=n, tag="sub")  # index space of the n subunits: arrays of length n allocated by the code line up with it
+        k = frames.RowPos(sub).val.t
+        s = [SV(z3.Real(f"s{i}")) for i in range(3)]
+        arg = n if cfg["form"] == "number" else SymSymmetry(n, cfg["form"])
+        f = it.function("Motl.split_in_asymmetric_subunits").bind(me)
+        return (lambda: f(arg, list(s))), {"me": me, "df": df, "n": n, "s": s, "k": k, "sub": sub, "old": common.old_row()}
+
+    def post(self, cx, cfg, inp, res):
+        old, n, k, s = inp["old"], inp["n"].t, inp["k"], [x.t for x in inp["s"]]
+        out = getattr(res, "df", None)
+        if not isinstance(out, frames.GFrame):
+            return [("returns_a_particle_list", z3.BoolVal(False))]
+        cl = [("schema_20_fields", z3.BoolVal(list(out.cols) == MOTL_COLS)), ("frame.self_untouched", z3.And(*[zr(inp["me"].df.row[c]) == old[c] for c in MOTL_COLS]))]
+        rep = None
+        for sp in getattr(cx, "spaces", []):
+            r = getattr(sp, "rep", None)
+            if r is not None and sp.pos_id == out.space.pos_id:
+                rep = r
+        ok = rep is not None and rep["src_space"] is inp["df"].space and z3.simplify(to_z3(rep["n"]) - n).eq(z3.IntVal(0))
+        cl.append(("n_copies_of_every_input_particle", z3.BoolVal(bool(ok)) if not ok else z3.And(z3.simplify(out.present), to_z3(out.space.n) == to_z3(inp["df"].space.n) * n)))
+        if not ok:
+            return cl
+        cl.append(("copies_of_one_parent_form_a_block", z3.BoolVal(rep.get("sorted_by") == "subtomo_id" and rep.get("block_index") is not None)))
+        j = rep.get("block_index")
+        if j is not None:
+            cl.append(("subunit_index_is_the_place_within_the_parents_block", k == j))
+        cl += [
+            ("index_reset", z3.BoolVal(out.space.is_range)),
+            ("geom5_records_the_parent", zr(out.row["geom5"]) == old["subtomo_id"]),
+            ("geom2_is_the_subunit_index_1_to_n", z3.And(zr(out.row["geom2"]) == z3.ToReal(k) + 1, k >= 0, k < n)),
+            ("subtomo_id_is_position_plus_one_hence_unique", zr(out.row["subtomo_id"]) == z3.ToReal(frames.RowPos(out.space).val.t) + 1),
+            ("other_fields_are_the_parents", z3.And(*[zr(out.row[c]) == old[c] for c in MOTL_COLS if c not in CHANGED])),
+        ]
+        # orbit relation, stated independently: A = 360 k / n degrees; orientation R Rz(A); position centre + R Rz(A) s
+        A = SV(z3.ToReal(k) * (360 / z3.ToReal(n)))
+        cA, sA = common.cs_of(A)
+        phi, the, psi = (theory.angle_input(a) for a in ("phi", "theta", "psi"))
+        R = common.R_zxz(common.cs_of(phi), common.cs_of(the), common.cs_of(psi))
+        Rz = [[cA, -sA, 0], [sA, cA, 0], [0, 0, 1]]
+        RRz = [[sum(R[a][m] * Rz[m][b] for m in range(3)) for b in range(3)] for a in range(3)]
+        Rn = common.R_zxz(common.cs_of(out.row["phi"]), common.cs_of(out.row["theta"]), common.cs_of(out.row["psi"]))
+        for a in range(3):
+            for b in range(3):
+                cl.append((f"orientation_is_R_Rz_360k_over_n[{a}{b}]", Rn[a][b] == RRz[a][b], ("poly", "lift")))
+        for i, a in enumerate(XYZ):
+            moved = sum((RRz[i][m] * s[m] for m in range(3)), z3.RealVal(0))
+            cl.append((f"complete_position_{a}_is_centre_plus_R_Rz_s", zr(out.row[a]) + zr(out.row["shift_" + a]) == old[a] + old["shift_" + a] + moved, ("poly", "lift")))
+            cl.append((f"integer_{a}", z3.ToReal(z3.ToInt(zr(out.row[a]))) == zr(out.row[a])))
+            cl.append((f"shift_within_half_{a}", z3.And(zr(out.row["shift_" + a]) <= HALF, zr(out.row["shift_" + a]) >= -HALF)))
+        return cl
+
+    def replay(self, clause, model, cfg):
+        from rtc import c10 as r
+        return r.replay_search(cfg["form"])
+
+
+def lemmas(ck):
+    # all n subunits map back to the parent's centre, and are related by rotations about the parent's own z axis
+    c, s_, x, y, z = z3.Reals("c s x y z")
+    ck.lemma("Rz_inverse_undoes_the_subunit_offset", [c * c + s_ * s_ == 1], z3.And(c * (c * x - s_ * y) + s_ * (s_ * x + c * y) == x, -s_ * (c * x - s_ * y) + c * (s_ * x + c * y) == y), tactics=("poly",))
+    c2, s2 = z3.Reals("c2 s2")
+    ck.lemma("Rz_compose_is_Rz_of_the_angle_sum", [], z3.And((c * c2 - s_ * s2) * x - (s_ * c2 + c * s2) * y == c * (c2 * x - s2 * y) - s_ * (s2 * x + c2 * y)), tactics=("poly",))
+
+
+CONTRACTS = [SplitSubunits]
+LEVEL = "proof"
 EXPLANATION = ("bounded run-time contract only so far: orbit relation (orientation R*Rz(360k/n), position centre + R*Rz(360k/n)*s, geom5/geom2 bookkeeping, unique ids, "
                "integer x,y,z with |shift|<=0.5) checked on the real code for every n in the stated range; labelled bounded, never counted as proved")
 ASSUMPTIONS = ["float comparison tolerances 1e-6 (orientation matrix entries) and 1e-5 (positions)"]
@@ -13,6 +137,7 @@ ASSUMPTIONS = ["float comparison tolerances 1e-6 (orientation matrix entries) an
 def run(ck):
     for C in CONTRACTS:
         ck.run_contract(C())
+    lemmas(ck)
     from rtc import c10 as r
     ns = [1, 2, 3, 4, 5, 6, 7, 8, 9, 10, 11, 12, 13, 14, 16, 17, 24, 36, 60, 64] if ck.tier == "quick" else list(range(1, 65))
     ck.bounded_run("orbit", r.gen_cases(ck.seed, ns), r.run_case, ref="rtc.c10:run_case",
